@@ -97,9 +97,14 @@ pub async fn on_completion_resolve_handler(
     params: CompletionItem,
     _: CancellationToken,
 ) -> CompletionItem {
+    // Lock order: workspace_manager before analysis (released before analysis is taken).
+    let client_id = context
+        .workspace_manager()
+        .read()
+        .await
+        .client_config
+        .client_id;
     let analysis = context.analysis().read().await;
-    let workspace_manager = context.workspace_manager().read().await;
-    let client_id = workspace_manager.client_config.client_id;
     completion_resolve(&analysis, params, client_id)
 }
 
